@@ -171,3 +171,70 @@ func T7(rc *RC) {
 		rc.S.Ok("T7", "tensor.(*Dense).T#inverse-test", pos, "inverse test reads transposeWith and axes: "+strings.Join(conds, " | "))
 	}
 }
+
+// T8: the copying transpose lays elements out in the tensor's data order. Dense.Transpose
+// installs strides chosen by the data order (rule T4); the kernels gather the elements with a
+// flat iterator and write them sequentially, so the iterator must run first-axis-first for a
+// column-major tensor: every kernel of the family (and the mask mover) takes its iterator from
+// a constructor that sets outerFirst from the tensor's data order, or sets it itself.
+func T8(rc *RC) {
+	rc.S.Declare("T8", "transpose layout order: every copying transpose kernel (and the mask mover) walks the lazily transposed tensor with an iterator whose outerFirst flag is set from the tensor's data order", 0)
+	if rc.P.Func("tensor.(StdEng).denseTransposeArbitrary") == nil {
+		return
+	}
+	orderAware := func(key string) (bool, string) {
+		fi := rc.P.Func(key)
+		if fi == nil {
+			return false, "no such function"
+		}
+		c := ir.NewCanon(rc.P.Fset, fi.Pkg.TypesInfo, ir.Options{ParamNames: true, KeepNames: true, NoSubst: true})
+		txt := ir.Render(c.Func(fi.Decl))
+		if regexp.MustCompile(`\.outerFirst = [%$]\w+\.DataOrder\(\)\.IsColMajor\(\)`).MatchString(txt) || regexp.MustCompile(`\.outerFirst = ![%$]\w+\.DataOrder\(\)\.IsRowMajor\(\)`).MatchString(txt) {
+			return true, ""
+		}
+		return false, "does not set outerFirst from the data order"
+	}
+	n := 0
+	for _, fi := range rc.P.SortedFuncs() {
+		if fi.Pkg != rc.P.Root || fi.Decl.Body == nil || fi.Decl.Recv == nil {
+			continue
+		}
+		name := fi.Obj.Name()
+		if !(strings.HasPrefix(name, "denseTranspose") && name != "denseTranspose") && name != "transposeMask" {
+			continue
+		}
+		c := ir.NewCanon(rc.P.Fset, fi.Pkg.TypesInfo, ir.Options{ParamNames: true, KeepNames: true, NoSubst: true})
+		tree := c.Func(fi.Decl)
+		txt := ir.Render(tree)
+		if !strings.Contains(txt, ".Next()") {
+			continue // the in-place build follows cycles, it does not gather with an iterator
+		}
+		n++
+		pos := rc.P.Pos(fi.Decl.Pos())
+		if ok, _ := orderAware(fi.Key); ok {
+			rc.S.Ok("T8", fi.Key, pos, "sets outerFirst from the data order")
+			continue
+		}
+		// iterator constructor used
+		m := regexp.MustCompile(`%\w+ = (\w+)\(\$a(?:\.Info\(\))?\)`).FindAllStringSubmatch(txt, -1)
+		good := false
+		why := "no iterator constructor found"
+		for _, x := range m {
+			if x[1] == "newFlatIterator" || x[1] == "FlatIteratorFromDense" || x[1] == "IteratorFromDense" {
+				why = "the iterator comes from " + x[1] + ", which always runs last-axis-first (row-major order)"
+				continue
+			}
+			if ok, w := orderAware("tensor." + x[1]); ok {
+				good = true
+			} else {
+				why = "iterator constructor " + x[1] + " " + w
+			}
+		}
+		if good {
+			rc.S.Ok("T8", fi.Key, pos, "iterator from an order-aware constructor")
+		} else {
+			rc.S.Viol("T8", fi.Key, pos, "elements are gathered and written sequentially but "+why+": a column-major tensor is laid out in row-major order under column-major strides").Sig = "order-blind iterator"
+		}
+	}
+	rc.S.Count("T8.kernels", n)
+}
